@@ -106,8 +106,10 @@ theorem subscribed_only_by_own_subscribe (s : HS) (ev : Ev) (h : (step s ev).1.s
     · simp [fail, hs'] at h
     · split at h
       · simp [fail, hs'] at h
-      · rename_i s1 f hdial
-        simp [setHandler, (dial_keeps _ _ _ _ hdial).2.1, hs'] at h
+      · split at h
+        · simp [fail, hs'] at h
+        · rename_i s1 f hdial
+          simp [setHandler, (dial_keeps _ _ _ _ hdial).2.1, hs'] at h
   | mAuthorize id user => exfalso; simp [stepCore, onAuthorize, hs', fail] at h
   | mSubmit => exfalso; simp [stepCore, fail, hs'] at h
   | pCfgResult id mask =>
@@ -181,8 +183,10 @@ theorem connected_only_if_authorised (s : HS) (ev : Ev) (hf : s.finished = none)
     · simp [fail] at h
     · split at h
       · simp [fail] at h
-      · rename_i s1 f hdial
-        simp [setHandler, (dial_keeps _ _ _ _ hdial).1, hf] at h
+      · split at h
+        · simp [fail] at h
+        · rename_i s1 f hdial
+          simp [setHandler, (dial_keeps _ _ _ _ hdial).1, hf] at h
   | mSubscribe id =>
     exfalso
     simp only [stepCore, onSubscribe] at h
@@ -234,18 +238,18 @@ theorem refused_authorize_fails (s : HS) (id payload : String) (hf : s.finished 
 /-- **unknown contract refused**: a connection announcing a contract address the store does not
 know is refused without any pool connection being opened -/
 theorem unknown_contract_refused (s : HS) (id mask minbits c : String) (hf : s.finished = none) (hc : c ≠ "")
-    (hu : s.contracts.find? (·.id = c) = none) :
+    (hd : s.dest = none) (hu : s.contracts.find? (·.id = c) = none) :
     (step s (.mConfigure id mask minbits c)).1.finished = some (.failed "unknown-contract") ∧
     (step s (.mConfigure id mask minbits c)).2.filter isFactory = [] ∧
     (step s (.mConfigure id mask minbits c)).1.dest = s.dest := by
-  simp only [step, hf, Option.isSome_none, Bool.false_eq_true, if_false, stepCore, onConfigure, contractTarget, hc, hu, fail]
-  cases s.dest <;> simp [isFactory, List.filter]
+  simp only [step, hf, Option.isSome_none, Bool.false_eq_true, if_false, stepCore, onConfigure, contractTarget, hc, hu, fail, hd]
+  simp [isFactory, List.filter]
 
 /-- **known contract attached to its pool**: a connection announcing a known contract (whose
 validator is not the contract itself) is connected to that contract's pool destination, and its
 configure is forwarded there -/
 theorem known_contract_routed (s : HS) (id mask minbits c : String) (ct : Contract) (u : PoolUrl)
-    (hf : s.finished = none) (hc : c ≠ "")
+    (hf : s.finished = none) (hc : c ≠ "") (hd : s.dest = none)
     (hk : s.contracts.find? (·.id = c) = some ct) (hv : ct.validator ≠ c)
     (hp : s.pools.find? (·.host = ct.pool) = some u) (hr : s.reachable.contains u.host = true) :
     ∃ n, (step s (.mConfigure id mask minbits c)).1.dest = some (u.host, n) ∧
@@ -253,8 +257,16 @@ theorem known_contract_routed (s : HS) (id mask minbits c : String) (ct : Contra
          (step s (.mConfigure id mask minbits c)).1.finished = none ∧
          Out.toPool u.host n s!"configure id={id} mask={mask} minbits={minbits} contract={c}" ∈ (step s (.mConfigure id mask minbits c)).2 := by
   simp only [step, hf, Option.isSome_none, Bool.false_eq_true, if_false, stepCore, onConfigure, contractTarget, hc, hk, hv, hp,
-    dial, hr, if_true]
+    dial, hr, if_true, hd]
   exact ⟨_, rfl, rfl, by simp [setHandler, hf], by simp [poolOut]⟩
+
+/-- a configure on a connection that already has a destination is refused: the destination of a
+connection is chosen once -/
+theorem second_configure_refused (s : HS) (id mask minbits c : String) (d : String × Nat) (hf : s.finished = none)
+    (hd : s.dest = some d) :
+    (step s (.mConfigure id mask minbits c)).1.finished = some (.failed "handshake-source") ∧
+    (step s (.mConfigure id mask minbits c)).1.dest = s.dest := by
+  simp [step, hf, stepCore, onConfigure, hd, fail]
 
 /-! ### many connections in one process -/
 
